@@ -118,6 +118,18 @@ func (g *vecGen) fresh() []float32 {
 	if zero {
 		v[g.rng.IntN(g.dim)] = 1
 	}
+	if g.rng.IntN(12) == 0 {
+		// ALMOST unit length (an embedding that was normalised in float16, or by another library): |v| = 1 +- 1e-3
+		n := 0.0
+		for _, x := range v {
+			n += float64(x) * float64(x)
+		}
+		n = math.Sqrt(n)
+		f := (1 + []float64{8e-4, -8e-4, 3e-4, -3e-4, 1e-4, 1e-5}[g.rng.IntN(6)]) / n
+		for i := range v {
+			v[i] = float32(float64(v[i]) * f)
+		}
+	}
 	g.pool = append(g.pool, cloneF32(v))
 	return v
 }
